@@ -1,6 +1,167 @@
 import CkbVerif.Driver.Util
+import CkbVerif.Model.Pool
+
+/-! Line-protocol driver for C11 (protocol: harness/hnode/src/c11.rs). `ckbmodel C11 [fixF2]`. -/
 namespace CkbVerif.Driver.C11
-def main (_args : List String) : IO UInt32 := do
-  IO.eprintln "C11: model driver not implemented"
-  return 2
+open CkbVerif.Driver CkbVerif.Pool
+
+structure St where
+  txs : List Tx := []
+  pool : Pool := {}
+
+def insSorted (a : Nat) : List Nat → List Nat
+  | [] => [a]
+  | x :: l => if a ≤ x then a :: x :: l else x :: insSorted a l
+def sortNat (l : List Nat) : List Nat := l.foldl (fun acc a => insSorted a acc) []
+def showSet (l : List Nat) : String := showNatList (sortNat (dedup l))
+
+def parsePt? (s : String) : Option OutPt :=
+  match s.splitOn ":" with
+  | [a, b] => do
+    let a ← parseNat? a
+    let b ← parseNat? b
+    pure ⟨a, b⟩
+  | _ => none
+
+def parsePts? (s : String) : Option (List OutPt) :=
+  if s = "-" then some [] else (s.splitOn ",").mapM parsePt?
+
+def parseStatus? : String → Option Status
+  | "p" => some .pending
+  | "g" => some .gap
+  | "r" => some .proposed
+  | _ => none
+
+def showStatus : Status → String
+  | .pending => "p"
+  | .gap => "g"
+  | .proposed => "r"
+
+def showW (w : W) : String := s!"{w.count},{w.size},{w.cycles},{w.fee}"
+
+def ptKey (o : OutPt) : Nat := o.tx * 1000 + o.idx
+def showPt (o : OutPt) : String := s!"{o.tx}:{o.idx}"
+
+def joinOr (l : List String) : String := if l.isEmpty then "-" else ";".intercalate l
+
+/-- sort by a Nat key (insertion sort; inputs are tiny) -/
+def sortBy {α} (key : α → Nat) (l : List α) : List α :=
+  l.foldl (fun acc a =>
+    let rec ins : List α → List α
+      | [] => [a]
+      | x :: r => if key a ≤ key x then a :: x :: r else x :: ins r
+    ins acc) []
+
+def dumpLine (p : Pool) : String :=
+  let es := (sortBy (fun (e : Entry) => e.tx.id) p.entries).map fun e =>
+    s!"{e.tx.id}:{showStatus e.status}:{e.ts}:{showW e.anc}:{showW e.desc}"
+  let ls := (sortBy (fun (kl : Nat × Links) => kl.1) p.links).map fun kl =>
+    s!"{kl.1}:{showSet kl.2.parents}:{showSet kl.2.children}"
+  let is := (sortBy (fun (kv : OutPt × Nat) => ptKey kv.1) p.inputs).map fun kv => s!"{showPt kv.1}>{kv.2}"
+  let ds := (sortBy (fun (kv : OutPt × List Nat) => ptKey kv.1) p.deps).map fun kv => s!"{showPt kv.1}>{showSet kv.2}"
+  let hs := (sortBy (fun (kv : Nat × List Nat) => kv.1) p.hdeps).map fun kv => s!"{kv.1}>{showNatList kv.2}"
+  s!"n={p.entries.length} P={p.pending} G={p.gap} R={p.proposed} size={p.totalSize} cyc={p.totalCycles} E={joinOr es} L={joinOr ls} I={joinOr is} D={joinOr ds} H={joinOr hs}"
+
+def showAdd : AddRes → String
+  | .ok ev => s!"ok {showSet ev}"
+  | .dup => "dup"
+  | .rejAnc => "rej-anc"
+  | .rejDbl => "rej-dbl"
+  | .panic => "panic"
+
+def showRbf : RbfRes → String
+  | .ok c => s!"ok {showSet c}"
+  | .unconfirmed => "rbf-unconfirmed"
+  | .struct => "rbf-struct"
+  | .dep => "rbf-dep"
+  | .fee => "rbf-fee"
+
+def showSubmit : SubmitRes → String
+  | .ok r e l => s!"ok R={showSet r} E={showSet e} L={showSet l}"
+  | .full r e l => s!"full R={showSet r} E={showSet e} L={showSet l}"
+  | .rbf r => showRbf r
+  | .dead => "dead"
+  | .add r => s!"add-{showAdd r}"
+
+def findTx (s : St) (id : Nat) : Option Tx := s.txs.find? (·.id = id)
+
+def sameSet (a b : List Nat) : Bool := sortNat (dedup a) == sortNat (dedup b)
+
+def stepWith (fix : Bool) (s : St) (ts : List String) : St × String :=
+  match ts with
+  | ["cfg", a, b, c, d, e, ch] =>
+    match parseNats? [a, b, c, d, e], parseNatList? ch with
+    | some [a, b, c, d, e], some ch =>
+      ({ txs := [], pool := { cfg := { maxAnc := a, maxSize := b, minFeeRate := c, minRbfRate := d, expiry := e, fixF2 := fix }, chain := ch } }, "ok")
+    | _, _ => (s, "bad-op")
+  | ["tx", id, ins, deps, hd, nout, size, cyc, fee] =>
+    match parseNats? [id, nout, size, cyc, fee], parsePts? ins, parsePts? deps, parseNatList? hd with
+    | some [id, nout, size, cyc, fee], some ins, some deps, some hd =>
+      ({ s with txs := s.txs ++ [{ id := id, inputs := ins, deps := deps, hdeps := hd, nout := nout, size := size, cycles := cyc, fee := fee }] }, "ok")
+    | _, _, _, _ => (s, "bad-op")
+  | ["add", id, st, t] =>
+    match (parseNat? id).bind (findTx s), parseStatus? st, parseNat? t with
+    | some tx, some st, some t =>
+      let r := addEntry s.pool tx st t
+      ({ s with pool := r.1 }, showAdd r.2)
+    | _, _, _ => (s, "bad-op")
+  | ["rm", id] =>
+    match parseNat? id with
+    | some id =>
+      let r := removeEntry s.pool id
+      ({ s with pool := r.1 }, if r.2.isSome then "ok" else "none")
+    | none => (s, "bad-op")
+  | ["rmd", id] =>
+    match parseNat? id with
+    | some id =>
+      let r := removeWithDesc s.pool id
+      ({ s with pool := r.1 }, s!"ok {showSet (idsOf r.2)}")
+    | none => (s, "bad-op")
+  | ["set", id, st] =>
+    match parseNat? id, parseStatus? st with
+    | some id, some st =>
+      if (getEntry s.pool id).isSome then ({ s with pool := setEntry s.pool id st }, "ok") else (s, "none")
+    | _, _ => (s, "bad-op")
+  | ["commit", id] =>
+    match (parseNat? id).bind (findTx s) with
+    | some tx =>
+      let r := commitTx s.pool tx
+      ({ s with pool := { r.1 with chain := r.1.chain ++ [tx.id] } }, s!"ok {showSet r.2}")
+    | none => (s, "bad-op")
+  | ["hdr", hs] =>
+    match parseNatList? hs with
+    | some hs =>
+      let r := resolveHeaders s.pool hs
+      ({ s with pool := r.1 }, s!"ok {showSet r.2}")
+    | none => (s, "bad-op")
+  | ["limit"] =>
+    let r := limitSize s.pool
+    ({ s with pool := r.1 }, s!"ok {showSet r.2}")
+  | ["expire", now, order] =>
+    match parseNat? now, parseNatList? order with
+    | some now, some order =>
+      let ex := expiredIds s.pool now
+      if sameSet ex order then ({ s with pool := removeExpired s.pool order }, s!"ok {showSet ex}")
+      else (s, s!"expired-set-differs {showSet ex}")
+    | _, _ => (s, "bad-op")
+  | ["detach", ids] =>
+    match parseNatList? ids with
+    | some ids => ({ s with pool := detachProposals s.pool ids }, "ok")
+    | none => (s, "bad-op")
+  | ["rbf", id] =>
+    match (parseNat? id).bind (findTx s) with
+    | some tx => (s, showRbf (checkRbf s.pool tx))
+    | none => (s, "bad-op")
+  | ["submit", id, st, t] =>
+    match (parseNat? id).bind (findTx s), parseStatus? st, parseNat? t with
+    | some tx, some st, some t =>
+      let r := submit s.pool tx st t
+      ({ s with pool := r.1 }, showSubmit r.2)
+    | _, _, _ => (s, "bad-op")
+  | ["dump"] => (s, dumpLine s.pool)
+  | _ => (s, "bad-op")
+
+def main (args : List String) : IO UInt32 :=
+  runLines ({} : St) (stepWith (args.contains "fixF2"))
+
 end CkbVerif.Driver.C11
